@@ -161,6 +161,8 @@ def rule_r2(ctx):
     src = c04r4(ctx)
     rr.instances += src.instances
     for f in src.findings:
+        if f.key.endswith(("refused-in-field", "-refused")):
+            continue  # a refusal is never invalid text: a matter of C04 (literals), not of the syntax floor
         rr.fail(f.key.replace("C04-R4", "C15-R2"), f.msg, where=f.where)
     for w in src.nontrivial:
         rr.ok("quotes|" + str(w))
@@ -398,7 +400,9 @@ def rule_r8(ctx):
 HOST_PRINTERS = {
     "ast.unparse": {
         "JoinedStr": "from 3.12 on ast.unparse writes a string literal inside a replacement field with the quote of the "
-                     "enclosing f-string (PEP 701): `print(f\"{d['a']}\")` is emitted as `print(f'{d['a']}')`, a SyntaxError on 3.8-3.11",
+                     "enclosing f-string (PEP 701): `print(f\"{d['a']}\")` is emitted as `print(f'{d['a']}')`, a SyntaxError on 3.8-3.11; "
+                     "on the same hosts the literal text of a FORMAT SPEC is written raw (a carriage return, NUL, lone surrogate or the quote: "
+                     "`f'{x:\\r>3}'` gives text with a real CR - not one line, does not compile)",
         "Subscript": "from 3.11 on ast.unparse prints every non-empty index tuple without its parentheses, also one that contains a "
                      "starred element (PEP 646): `a[(*b, 1)]` is emitted as `a[*b, 1]`, a SyntaxError on 3.8-3.10",
     },
